@@ -85,6 +85,8 @@ exec_local!(x_t_cycle_max, t_cycle_max, [in0: i32], [out0]);
 exec_local!(x_t_across_count, t_across_count, [in0: i32], [out0]);
 exec_local!(x_t_across_fold, t_across_fold, [in0: i32], [out0]);
 exec_local!(x_t_noorder_count, t_noorder_count, [in0: i32], [out0]);
+exec_local!(x_t_clone_into_tick, t_clone_into_tick, [in0: i32], [out0]);
+exec_local!(x_t_clone_into_tick_opt, t_clone_into_tick_opt, [in0: i32], [out0]);
 exec_local!(x_s_map_filter, s_map_filter, [in0: i32], [out0]);
 exec_local!(x_s_enumerate, s_enumerate, [in0: i32], [out0]);
 exec_local!(x_s_scan, s_scan, [in0: i32], [out0]);
